@@ -112,7 +112,7 @@ def wrapped_leg(ctx):
 
 def file_edit_leg(ctx):
     """A task defined in a real source file whose body is edited IN PLACE (same file, same qualified name, same first line) and re-imported
-    in the same process: the hash must follow the body through every edit history (all sequences of <=3 edits over 4 bodies, two of equal length)."""
+    in the same process: the hash must follow the body through every edit history (all sequences of <=2 (thorough 3) edits over 8 definitions, incl. ones that differ only in a default value, an annotation or a comment)."""
     import importlib.util
     import os
 
@@ -121,13 +121,17 @@ def file_edit_leg(ctx):
     root = os.path.join(common.scratch_dir(), "c17-src")
     os.makedirs(root, exist_ok=True)
     path = os.path.join(root, "c17_edited_module.py")
-    bodies = ["x * 2", "x * 10", "x * 3", "x * 100 + 1"]
+    # (signature, body): pairs 0/2 have equal length; 4/5 differ only in a default VALUE, 0/6 only in an annotation, 0/7 only in a comment
+    # (equal bytecode, different source text)
+    bodies = [("x", "x * 2"), ("x", "x * 10"), ("x", "x * 3"), ("x", "x * 100 + 1"), ("x, k=1", "x * k"), ("x, k=2", "x * k"), ("x: int", "x * 2"),
+              ("x", "x * 2  # doubled")]
     n = 0
     clock = [2_000_000_000]
 
-    def load(body):
+    def load(sig_body):
+        sig, body = sig_body
         with open(path, "w") as f:
-            f.write(f"from redun import task\n\n\n@task(namespace='c17f')\ndef edited(x):\n    return {body}\n")
+            f.write(f"from redun import task\n\n\n@task(namespace='c17f')\ndef edited({sig}):\n    return {body}\n")
         clock[0] += 10
         os.utime(path, (clock[0], clock[0]))  # an edit always moves the modification time forward
         spec = importlib.util.spec_from_file_location("c17_edited_module", path)
@@ -135,13 +139,13 @@ def file_edit_leg(ctx):
         spec.loader.exec_module(mod)
         return mod.edited
 
-    for k in (1, 2, 3):
+    for k in (1, 2, 3) if not ctx.quick else (1, 2):
         for hist in itertools.product(range(len(bodies)), repeat=k):
             seen = {}
             for step, b in enumerate(hist):
                 t = load(bodies[b])
                 n += 1
-                if t.func(1) != eval(bodies[b], {"x": 1}):
+                if t.func(3) != eval(f"lambda {bodies[b][0].replace(': int', '')}: {bodies[b][1].split('#')[0]}")(3):
                     raise AssertionError("harness: module not reloaded")
                 for b2, h2 in seen.items():
                     if (b2 == b) != (h2 == t.hash):
